@@ -763,6 +763,17 @@ class Escape:
                 e['name'] = key
                 if 'unless_kw' in e and any(k.arg == e['unless_kw'] for k in call.keywords):
                     return None
+                if 'needs_nonempty_kw' in e:
+                    # partial only on an empty collection: discharged by a test of that argument made after its last (re-)binding
+                    kwv = next((k.value for k in call.keywords if k.arg == e['needs_nonempty_kw']), None)
+                    if isinstance(kwv, ast.Name) and not isinstance(f.node, ast.Lambda):
+                        from .cfg import CFG
+                        cfg = CFG(f)
+                        try:
+                            if self._fresh_nonempty_test(cfg, f, kwv.id, cfg.stmt_of(call)):
+                                return None
+                        except AttributeError:
+                            pass
                 return e
         # method-name entries: '?.decode'
         short = name.split('.')[-1]
